@@ -55,11 +55,13 @@ struct Plan {
     k: u64,
     spec: Option<String>,   // power loss file set
     nested_k: Option<u64>,  // crash again during the recovery open
+    second_k: Option<u64>,  // after recovery, WITHOUT cleaning up: retry the killed operation and kill it again
 }
 
 struct Run {
     events: Option<u64>,        // counted events of the target op (probe)
     recovery_events: Option<u64>,
+    second_events: Option<u64>,
 }
 
 fn gen_history(kind: &str, rng: &mut Rng, big: bool) -> (Vec<Vec<u8>>, Vec<AOp>) {
@@ -89,7 +91,7 @@ fn gen_history(kind: &str, rng: &mut Rng, big: bool) -> (Vec<Vec<u8>>, Vec<AOp>)
 
 #[allow(clippy::too_many_arguments)]
 fn run_one<K: HKey>(s: &mut Sess, rng: &mut Rng, cfg: &str, keys: &[Vec<u8>], ops: &[AOp], big: bool, plan: Option<&Plan>, prop: &'static str) -> Run {
-    let mut run = Run { events: None, recovery_events: None };
+    let mut run = Run { events: None, recovery_events: None, second_events: None };
     s.begin_case(cfg);
     let mut c: Ctx<K> = Ctx { s, rng, map: BTreeMap::new(), keys: keys.to_vec(), open_txs: Vec::new(), next_tx: 0, prop };
     let arm = |c: &mut Ctx<K>, p: &Plan| {
@@ -211,22 +213,76 @@ fn run_one<K: HKey>(s: &mut Sess, rng: &mut Rng, cfg: &str, keys: &[Vec<u8>], op
         let want = format!("orphans={} missing={} corrupted=0 staging={} total={} invalid=0", files.difference(&refd).count(), refd.difference(&files).count(), staging, files.len());
         if rest != want { c.s.out.oracle_fail(format!("C08: scan after crash reported `{rest}`, directory/index comparison gives `{want}`")); }
         c.observe(false);
-        // clean-up restores exactness (C08 → C07)
-        let r = c.op("delete_orphans");
-        if !r.contains("errors=0") { c.s.out.oracle_fail(format!("C08: delete_orphans reported `{r}`")); }
-        c.op("traceset");
-        c.observe(true);
+        // "further operations, crashes and reopens keep satisfying the same guarantee": retry the
+        // killed operation on the recovered store WITHOUT cleaning up first (its leftovers — an
+        // unreferenced blob, a staging file — are still there) and kill it again
+        if let Some(k2) = plan.and_then(|p| p.second_k) {
+            let retry = match plan.map(|p| p.target) {
+                Some(t) if t < ops.len() && matches!(ops[t], AOp::Put(..) | AOp::Remove(..) | AOp::RemoveAll) => ops[t].clone(),
+                _ => AOp::Put(c.keys[0].clone(), "=5859".to_string()),
+            };
+            let line = line_of(&retry, 0).pop().unwrap();
+            let before = c.map.clone();
+            apply(&mut c.map, &retry);
+            c.op(&format!("crashnext {k2}"));
+            let r2 = c.op(&line);
+            if r2 == "crashed" {
+                c.s.out.count("crash.second");
+                c.op("trace");
+                c.op("dump");
+                let r3 = c.op("open");
+                if r3.starts_with("ok ") {
+                    let got = c.op("iter");
+                    if got == fmt(&before) { c.map = before; c.s.out.count("recovered2.acked"); }
+                    else if got == fmt(&c.map) { c.s.out.count("recovered2.acked+inflight"); }
+                    else {
+                        c.s.out.oracle_fail(format!("{prop}: after a second crash (retry of the killed operation, no clean-up in between) the store shows `{got}`; acknowledged = `{}`, with in-flight = `{}`", fmt(&before), fmt(&c.map)));
+                        return run;
+                    }
+                    c.observe(false);
+                } else {
+                    c.s.out.oracle_fail(format!("{prop}: open after a second crash failed: `{r3}`"));
+                    return run;
+                }
+            } else if let Some(rest) = r2.strip_prefix("nocrash events=") {
+                run.second_events = rest.split(' ').next().and_then(|x| x.parse().ok());
+                c.op("trace");
+                c.op("dump");
+                c.observe(false);
+            } else {
+                c.op("trace");
+                c.op("dump");
+            }
+        }
+        // clean-up restores exactness (C08 → C07) — or nobody cleans up: the store must stay usable
+        // with the leftovers of the killed operations lying around (StoreLive of Props/C03Live)
+        let cleanup = !plan.is_some_and(|p| p.second_k.is_some_and(|k2| k2 % 2 == 1));
+        if cleanup {
+            let r = c.op("delete_orphans");
+            if !r.contains("errors=0") { c.s.out.oracle_fail(format!("C08: delete_orphans reported `{r}`")); }
+            c.op("traceset");
+            c.observe(true);
+        } else { c.s.out.count("recovered.no-cleanup"); }
         // the recovered store is fully usable
         let kb = c.keys[0].clone();
         c.op(&format!("put {} =7a7a", hx(&kb)));
         c.map.insert(K::dec(&kb).unwrap(), b"zz".to_vec());
-        c.observe(true);
+        c.observe(cleanup);
         c.op("checkpoint");
         c.op("close");
         c.op("trace");
+        // what the next open's scan must report, from the directory and the oracle map alone
+        let d = c.op("dump");
+        let cas = d.split(' ').find_map(|f| f.strip_prefix("cas=")).unwrap_or("_");
+        let files: BTreeSet<String> = if cas == "_" { BTreeSet::new() } else { cas.split(',').map(|e| e.split(':').next().unwrap().to_string()).collect() };
+        let refd: BTreeSet<String> = c.map.values().map(|b| hx(blake3::hash(b).as_bytes())).collect();
+        let staging = d.split(' ').find_map(|f| f.strip_prefix("staging=")).unwrap_or("0");
+        let want = format!("ok orphans={} missing=0 corrupted=0 staging={} total={} invalid=0", files.difference(&refd).count(), staging, files.len());
         let r = c.op("open");
-        if !r.starts_with("ok orphans=0 missing=0 corrupted=0 staging=0") { c.s.out.oracle_fail(format!("{prop}: reopen after recovery reported `{r}`")); }
-        c.observe(true);
+        if r != want || (cleanup && !r.starts_with("ok orphans=0 missing=0 corrupted=0 staging=0")) {
+            c.s.out.oracle_fail(format!("{prop}: reopen after recovery reported `{r}`, directory/index comparison gives `{want}`"));
+        }
+        c.observe(cleanup);
         c.op("close");
         c.op("trace");
     } else {
@@ -259,7 +315,7 @@ fn family<K: HKey>(s: &mut Sess, rng: &mut Rng, mode: Mode, prop: &'static str, 
     if ops.len() > 1 && rng.chance(1, 2) { targets.push(rng.below(ops.len() as u64 - 1) as usize); }
     if rng.chance(1, 10) { targets.push(ops.len()); }
     for target in targets {
-        let probe = Plan { target, k: 1_000_000, spec: None, nested_k: None };
+        let probe = Plan { target, k: 1_000_000, spec: None, nested_k: None, second_k: None };
         let r = run_one::<K>(s, rng, &cfg, &keys, &ops, big, Some(&probe), prop);
         let Some(n) = r.events else { continue };
         s.out.add("crash.points", n);
@@ -272,15 +328,26 @@ fn family<K: HKey>(s: &mut Sess, rng: &mut Rng, mode: Mode, prop: &'static str, 
                     _ => "all".to_string(),
                 })
             } else { None };
-            let plan = Plan { target, k, spec: spec.clone(), nested_k: None };
+            let plan = Plan { target, k, spec: spec.clone(), nested_k: None, second_k: None };
             run_one::<K>(s, rng, &cfg, &keys, &ops, big, Some(&plan), prop);
+            // second crash: retry the killed operation after recovery, kill it again
+            if mode == Mode::Kill && !big && (thorough || rng.chance(1, 5)) {
+                let probe2 = Plan { target, k, spec: None, nested_k: None, second_k: Some(1_000_000) };
+                if let Some(m) = run_one::<K>(s, rng, &cfg, &keys, &ops, big, Some(&probe2), prop).second_events {
+                    let ks: Vec<u64> = if thorough && m <= 12 { (0..m).collect() } else { vec![rng.below(m.max(1))] };
+                    for k2 in ks {
+                        let plan = Plan { target, k, spec: None, nested_k: None, second_k: Some(k2) };
+                        run_one::<K>(s, rng, &cfg, &keys, &ops, big, Some(&plan), prop);
+                    }
+                }
+            }
             // nested: crash again inside recovery, at every point (thorough) or one point (quick)
             if mode == Mode::Kill && (thorough || rng.chance(1, 6)) {
-                let probe2 = Plan { target, k, spec: None, nested_k: Some(1_000_000) };
+                let probe2 = Plan { target, k, spec: None, nested_k: Some(1_000_000), second_k: None };
                 if let Some(m) = run_one::<K>(s, rng, &cfg, &keys, &ops, big, Some(&probe2), prop).recovery_events {
                     let ks: Vec<u64> = if thorough { (0..m).collect() } else { vec![rng.below(m.max(1))] };
                     for k2 in ks {
-                        let plan = Plan { target, k, spec: None, nested_k: Some(k2) };
+                        let plan = Plan { target, k, spec: None, nested_k: Some(k2), second_k: None };
                         run_one::<K>(s, rng, &cfg, &keys, &ops, big, Some(&plan), prop);
                     }
                 }
